@@ -145,7 +145,15 @@ def sensitivity(argv, seed):
         finally:
             shutil.rmtree(scratch, ignore_errors=True)
     path = os.path.join(runner.VERIF, "evidence", "selftest-sensitivity.json")
+    merged = {}
+    if only and os.path.exists(path):
+        with open(path) as f:
+            merged = {r["mutant"]: r for r in json.load(f).get("results", [])}
+    for r in results:
+        merged[r["mutant"]] = r
+    ordered = [merged[k] for k in sorted(merged)]
     with open(path, "w") as f:
-        json.dump({"results": results, "missed": missed}, f, indent=1, sort_keys=True)
+        json.dump({"results": ordered, "missed": sum(1 for r in ordered if not r["caught"])}, f, indent=1,
+                  sort_keys=True)
     print("sensitivity: %d mutant(s), %d missed" % (len(results), missed))
     return 1 if missed else 0
